@@ -10,6 +10,22 @@ from . import poolenv
 from .poolenv import CHUNK, ITEM
 
 
+def counting(U):
+    """rcnt(a, k) = number of received indices below k.  The pigeonhole facts of the channel model (received <= sent; all received
+    when the counts agree) are LEMMAS proved by induction over this definition, not assumptions."""
+    RA = ArrS(INT, BOOL)
+    U.spec_fun("rcnt", [RA, INT], INT)
+    U.rec_def("rcnt", ["a", "k"], "implies(k <= 0, rcnt(a, k) == 0) and implies(k >= 1, rcnt(a, k) == rcnt(a, k - 1) + ite(a[k - 1], 1, 0))")
+    ua, ub = "unfold('rcnt', la, lk)", "unfold('rcnt', lb, lk)"
+    U.lemma("rc_bounds", {"la": RA, "lk": INT}, [], ["0 <= rcnt(la, lk) and rcnt(la, lk) <= max(lk, 0)"], induct="lk", unfold=[ua])
+    U.lemma("rc_one_more", {"la": RA, "lb": RA, "lg": INT, "lk": INT},
+            ["lg >= 0", "not la[lg]", "lb[lg]", "forall(h, 0, lk, implies(h != lg, la[h] == lb[h]))"],
+            ["rcnt(lb, lk) == rcnt(la, lk) + ite(lg < lk, 1, 0)"], induct="lk", unfold=[ua, ub])
+    U.lemma("rc_full", {"la": RA, "lk": INT}, ["lk >= 0", "rcnt(la, lk) == lk"], ["forall(h, 0, lk, la[h])"], induct="lk",
+            unfold=[ua, "lemma_inst('rc_bounds', la, lk - 1)"])
+    U.var("h", INT)
+
+
 def declare(U):
     E, CH, Q = poolenv.declare(U)
     g = Q.methods["get"]
@@ -22,9 +38,7 @@ def declare(U):
                "owed@get:an-unbounded-blocking-get-is-entered-only-while-a-sent-item-is-still-unreceived")
     g.raises_l[:] = []
     g.raises("Empty", when="not block or not is_none(timeout)", iff=False)
-    # pigeonhole facts of the channel model (each get takes a distinct sent index): assumed, see DESIGN §4
-    g.ensures("self.chan.nrecv <= self.chan.sent", "model:received<=sent")
-    g.ensures("implies(self.chan.nrecv == self.chan.sent, forall(i, 0, self.chan.sent, self.chan.recv[i]))", "model:all-received-when-counts-agree")
+    counting(U)
     # stop tokens (None) put on the work queue: counted (ghost)
     Q.ghost["stops"] = INT
     pm = Q.methods["put"]
